@@ -1,7 +1,18 @@
 import Mimium.Model.Sched
 /-!
-# WASM side with the closure records in linear memory (finding F17 of C11)
+# WASM side with the closure records in linear memory — the OLD discipline (finding F17 of C11, repaired)
 
+**Role of this file since the repair of F17.** `M.run` / `R.run` below model the memory discipline the WASM back end had
+until the repair (closure records freed together with the body that made them). The repaired back end hands the host a
+record that is NOT rewound (`closure_retain` copies the record into a pool block below the allocator floor,
+`closure_release` returns it after the task ran), so the implementation is now modelled by the plain queue model
+(`W.run` / `W.runH stdHeap`) and must be `Ideal` on every program. The theorems about `M.run` / `R.run` stay: they are
+the proof of WHY the old discipline failed (the two counterexamples) and of which programs it could not hurt (same
+closure per slot). The correspondence still evaluates `M.run` / `R.run` on every generated program, but only to count how
+many programs are sensitive to the lifetime of the records. The stdPush/stdPop port of `BinaryHeap` in this file is
+still the model of the implementation's heap.
+
+What follows describes the code BEFORE the repair.
 On the WASM backend the closure handle given to `_mimium_schedule_at` is the *address* of a closure record
 `[fn_table_idx : i64][upvalues…]` that `MakeClosure` bump-allocates at `__alloc_ptr` (`wasmgen.rs: emit_runtime_alloc`).
 The bump pointer is rewound
